@@ -38,7 +38,7 @@ def ty_str(t):
     if k == 'closure':
         return 'closure:' + t['dp'].split('::', 1)[-1]
     if k == 'region':
-        return t['s']
+        return t.get('s', "'_")
     if k == 'const':
         return t['s']
     return t.get('s', k)
